@@ -700,8 +700,25 @@ func addHelpers(w *cv.Writer, st *cv.Stats, r *cv.Rand, thorough bool) {
 	for i := 0; i < nr; i++ {
 		ints = append(ints, new(big.Int).SetBytes(r.Bytes(1+r.Intn(40))))
 	}
-	for _, n := range ints {
+	// negative integers (referee issue I6): WrapInt takes big.Int.Bytes(), i.e. the magnitude; the model of
+	// that is WrapIntZ z = WrapInt |z| (Rlp/Strict.v, C06_wrapint_sign_is_dropped).  The case carries |n|, so
+	// the existing CWrapInt judgement says: the data is BE |n| and Int() returns |n|.
+	nPos := len(ints)
+	for _, v := range []int64{-1, -2, -0x7f, -0x80, -0xff, -0x100} {
+		ints = append(ints, big.NewInt(v))
+	}
+	for _, k := range []uint{63, 64, 255, 256} {
+		ints = append(ints, new(big.Int).Neg(new(big.Int).Lsh(big.NewInt(1), k)))
+	}
+	for i := 0; i < 8; i++ {
+		ints = append(ints, new(big.Int).Neg(new(big.Int).SetBytes(r.Bytes(1+r.Intn(40)))))
+	}
+	for i, n := range ints {
 		n := n
+		kind := "helper/WrapInt"
+		if i >= nPos {
+			kind = "helper/WrapInt-negative"
+		}
 		guard("WrapInt", func() {
 			d := rlp.WrapInt(n)
 			back := d.Int()
@@ -710,9 +727,12 @@ func addHelpers(w *cv.Writer, st *cv.Stats, r *cv.Rand, thorough bool) {
 				bs = fmt.Sprintf("(Some %s)", back.String())
 			}
 			st.Hit(fmt.Sprintf("help:WrapInt:bytes=%s", bucket(len(d))))
+			if n.Sign() < 0 {
+				st.Hit("help:WrapInt:negative")
+			}
 			st.Distinct++
-			w.Add(fmt.Sprintf("CWrapInt %s %s %s", n.String(), cv.Lit(d).Coq(), bs),
-				desc{Kind: "helper/WrapInt", Input: n.String(), Impl: fmt.Sprintf("data=%s int=%s", hex.EncodeToString(d), bs)})
+			w.Add(fmt.Sprintf("CWrapInt %s %s %s", new(big.Int).Abs(n).String(), cv.Lit(d).Coq(), bs),
+				desc{Kind: kind, Input: n.String(), Impl: fmt.Sprintf("data=%s int=%s", hex.EncodeToString(d), bs)})
 		})
 	}
 	// Data values: nil, empty, around 20 bytes, leading zeros, long
